@@ -65,7 +65,7 @@ def run(res, replay=None):
                         "gens": gens, "mask": [True] + [False] * (m + 1)})
         extra = geo.geo_data(tier, seed, inputs=big, name="c15big")
         data = {"recs": data["recs"] + extra["recs"]}
-    model_lines, model_idx = [], []
+    model_lines, model_idx, model_duals = [], [], []
     for k_in, rec in enumerate(data["recs"]):
         inp = rec["inp"]
         o = rec["impl_raw"]
@@ -188,8 +188,9 @@ def run(res, replay=None):
                 toks = ["faces", str(len(planes)), str(len(verts))] + [str(x) for v in verts for x in v["dual"]]
                 model_lines.append(" ".join(toks))
                 model_idx.append((k_in, gi, [(used[fi], f["verts"]) for fi, f in enumerate(faces)]))
+                model_duals.append([tuple(v["dual"]) for v in verts])
     # the Coq model of with_faces / sort_face_vertices on the same duals
-    wd = os.path.join(C.CACHE, "run", "c15")
+    wd = C.rundir("c15")
     os.makedirs(wd, exist_ok=True)
     mf = os.path.join(wd, "faces.model.cases")
     with open(mf, "w") as f:
@@ -201,8 +202,22 @@ def run(res, replay=None):
         if len(sp) == 2 and sp[0].isdigit():
             got[int(sp[0])] = json.loads(sp[1])
     for j, (k_in, gi, impl_faces) in enumerate(model_idx):
-        m = got.get(j)
+        mo = got.get(j)
+        m = mo.get("faces") if isinstance(mo, dict) else None
         ctx = {"input": T.inp_json(data["recs"][k_in]["inp"]), "cell": gi}
+        if isinstance(mo, dict):
+            # hypothesis of C15_face_walk_closes_up, decided by the extracted model on the implementation's duals
+            res.count("theorem-hypothesis:closed-simple-surface" if mo.get("surface") else "theorem-hypothesis:not-a-closed-simple-surface")
+            if mo.get("surface") and m is not None:
+                # the theorem's conclusion, re-checked on the implementation's own lists (they equal the model's, see below)
+                verts_d = model_duals[j]
+                for pl, vl in impl_faces:
+                    n_ = len(vl)
+                    for t in range(n_):
+                        da, db = verts_d[vl[t]], verts_d[vl[(t + 1) % n_]]
+                        if len((set(da) & set(db)) - {pl}) < 1:
+                            res.violation("corr:theorem-contradicted", f"cell {gi} face {pl}: consecutive vertices {vl[t]}, {vl[(t + 1) % n_]} of the sorted list share no second plane although the duals form a closed simple surface: contradicts C15_face_walk_closes_up", ctx, no_input=True)
+                            break
         if m is None or [(p, vl) for p, vl in m] != [(p, vl) for p, vl in impl_faces]:
             res.disagreements += 1
             res.violation("corr:with-faces-model", f"cell {gi}: face vertex lists differ from Model.CellExact.faces_of (sort_face_vertices) on the same duals: impl {impl_faces[:2]} model {m and m[:2]}",
